@@ -1,6 +1,6 @@
 (* Request handlers of the extracted driver: each takes text and returns one JSON line. *)
 From Coq Require Import String List NArith ZArith Bool Arith Ascii.
-From Tealer Require Import Tables LeafPrelude Leaves Syntax Parse Cfg StackAst Keys Analysis Domains Detect Regex Group.
+From Tealer Require Import Tables LeafPrelude Leaves Syntax Parse Cfg StackAst Keys Analysis Domains Detect Regex Group Output.
 Import ListNotations.
 Open Scope string_scope.
 
@@ -59,6 +59,16 @@ Definition teal_fields (t : teal) : list (string * string) :=
    ("flags", let '(fl, _) := verify_version (t_prog t) (t_version t) in
              jlist (map (fun '(ln, k) => jlist [nat_str ln; jstr (match k with FlagIns => "ins" | FlagField => "field" end)]) fl));
    ("mixed", if snd (verify_version (t_prog t) (t_version t)) then "true" else "false");
+   (* what the exporters draw (Model/Output.v): cfg DOT edges, per-routine local edges and call boxes, call graph *)
+   ("dot_edges", jlist (map (fun '(a, b) => jnats [a; b]) (full_cfg_edges t)));
+   ("dot_path_edges", jlist (map (fun '(a, b) => jnats [a; b]) (path_cfg_edges t)));
+   ("dot_subs", jlist (map (fun '(fname, s) =>
+        jobj [("file", jstr fname); ("name", jstr (s_name s)); ("nodes", jnats (sub_cfg_nodes t s));
+              ("edges", jlist (map (fun '(a, b) => jnats [a; b]) (sub_cfg_edges t s)));
+              ("boxes", jlist (map (fun '(c, rp, nm) => jlist [nat_str c; match rp with Some r => nat_str r | None => "null" end; jstr nm])
+                                   (sub_cfg_callboxes t s)))]) (sub_cfg_files t)));
+   ("callgraph", if callgraph_exported t then jlist (map (fun '(a, b) => jlist [jstr a; jstr b]) (callgraph_edges t)) else "null");
+   ("callgraph_nodes", jlist (map jstr (callgraph_nodes t)));
    ("costs", jobj (map (fun b => (nat_str (b_idx b), string_of_N (block_cost t b))) (t_blocks t)));
    ("contract_type", jstr (match t_mode t with MStateful => "ApprovalProgram" | _ => "LogicSig" end));
    ("structured", if forallb (fun b => Nat.leb (length (filter (fun s => nat_mem (b_idx b) (s_blocks s)) (t_main t :: t_subs t))) 1) (t_blocks t) then "true" else "false")].
